@@ -33,10 +33,27 @@ def main():
         ref_linalg.selftest()
     except ImportError:
         pass
+    # exploration engine: the chooser enumerates exactly the executions within the deviation bound
+    from mc.seams import explore, VirtualExecutor
+
+    def toy(ch):
+        return tuple(ch.choose(2) for _ in range(4))
+
+    res, complete = explore(toy, 1, max_exec=100)
+    assert complete and sorted(r for _, r in res) == sorted({(0, 0, 0, 0), (1, 0, 0, 0), (0, 1, 0, 0), (0, 0, 1, 0), (0, 0, 0, 1)}), res
+    res, complete = explore(toy, 4, max_exec=100)
+    assert complete and len({r for _, r in res}) == 16
+    with VirtualExecutor(max_workers=3) as ex:
+        assert list(ex.map(abs, [-1, 2, -3])) == [1, 2, 3]
+    # every finding names a property of the list and either one sub-check tag or a list of tags
     kf = os.path.join(os.path.dirname(os.path.dirname(os.path.abspath(__file__))), "known_findings.json")
     if os.path.exists(kf):
         d = json.load(open(kf))
         assert isinstance(d.get("findings", []), list) and isinstance(d.get("fixed", []), list)
+        for f in d["findings"]:
+            assert f.get("property", "").startswith("C") and (("sub" in f) != ("subs" in f)) and ("key" in f or "key_prefix" in f), f
+        for f in d["fixed"]:
+            assert f.startswith("fixed: property=C"), f
     print("selftest ok")
 
 if __name__ == "__main__":
